@@ -6,9 +6,8 @@ import "golang.org/x/tools/go/ssa"
 // the ABCI (codespace, code, log) triple of an error (reflect based) and the rendering of sdk.Coins
 // (strings.Builder uses unsafe). Both results only flow into ignored event/err-message sinks.
 func init() {
-	Register("cosmossdk.io/errors.ABCIInfo", func(it *Interp, fn *ssa.Function, a []Value) Value {
-		return it.opaqueResult(fn.Signature, "errors.ABCIInfo")
-	})
+	// (errors.ABCIInfo runs from its real source: only errIsNil needs a model, see models_sdk.go; its
+	// codespace/code results are stored by oracle's handleCreateSigningFailed and must stay precise)
 	Register("(github.com/cosmos/cosmos-sdk/types.Coins).String", func(it *Interp, fn *ssa.Function, a []Value) Value {
 		return OpaqueV{Why: "Coins.String"}
 	})
